@@ -1,8 +1,8 @@
 /-
   Soundness of the enclosure oracle, part 9: the verdict function `Spec.withinUlps` (D128/Spec/Elem.lean).
   `T` is the positive true value, known only through `T ∈ₛ t` (`T = z·10^t.k`, `t.m.lo ≤ z ≤ t.m.hi`);
-  the result is the finite magnitude `c·10^e`.  `eT t = spacingExpS t.m.lo t.k` is the exponent of the
-  format's spacing at the lower end of the enclosure.
+  the result is the finite magnitude `c·10^e`.  `eT t = max (spacingExpS t.m.lo t.k) (spacingExpS t.m.hi t.k)`
+  is the exponent of the unit used by the verdict: the format's spacing at the upper end of the enclosure.
 
   1. `withinUlps_fin_cases` : for c ≠ 0 and 0 < t.m.lo, a `.bad` verdict on `.fin n c e` is one of
        (a) ilog10 lo + k > Emax + 40,  (b) ilog10 lo + k < Emin − 40,  (c) |e − k| > 120,
@@ -15,17 +15,21 @@
      `withinUlps_fin_ok`   : `.ok` ⇒ |c·10^e − T| ≤ 10^eT + (hi − lo)·10^k + x·hi·10^k   (0 ≤ x)
   3. `withinUlps_zero_bad` : (x = 0) a `.bad` verdict on a zero result ⇒ 10^Emin < T
      (the true value is more than one subnormal ulp away from 0)
+  5. `spacingExpS_mono`, `spacing_le_eT`, `eT_eq_hi` : `10^eT` is the ulp at the upper end of the enclosure and
+     at least the ulp at every rational point of it;  `withinUlps_inf_bad` (meaning of `.bad` on ±Inf)
   4. `withinUlps_bad_sound0` : summary for x = 0, result `.fin n c e` with c ≠ 0: a `.bad` verdict implies
        |c·10^e − T| > 10^eT  ∨  10^(Emax+41) ≤ T  ∨  lo·10^k < 10^(Emin−40)  ∨  |e − k| > 120.
 -/
 import D128.Proofs.EnclosureElemLog
+import D128.Proofs.SpecRoundMono
 set_option autoImplicit false
 
 namespace EnclPf
 open Spec Spec.Encl SpecRound
 
-/-- exponent of the spacing at the lower end of the enclosure -/
-def eT (t : Sci) : Int := spacingExpS t.m.lo t.k
+/-- the exponent of the unit used by `withinUlps`: the larger of the spacing exponents at the two ends of
+    the enclosure (they differ only when the enclosure touches a point where the spacing changes) -/
+def eT (t : Sci) : Int := max (spacingExpS t.m.lo t.k) (spacingExpS t.m.hi t.k)
 
 /-! ## 1. case analysis of the finite non-zero branch -/
 
@@ -223,5 +227,58 @@ theorem withinUlps_bad_sound0 {n : Bool} {c : Nat} {e : Int} {t : Sci} {T : ℝ}
   · right; right; left; exact withinUlps_fin_underflow hlo h1
   · right; right; right; exact h1
   · left; exact withinUlps_fin_far0 hT h1
+
+/-! ## 5. the spacing over the enclosure, infinite results -/
+
+theorem spacingExpS_mono {q1 q2 : ℚ} (k : Int) (h1 : 0 < q1) (h12 : q1 ≤ q2) :
+    spacingExpS q1 k ≤ spacingExpS q2 k := by
+  have h2 : 0 < q2 := lt_of_lt_of_le h1 h12
+  have hp : (0 : ℚ) < (10 : ℚ) ^ k := zpow_pos (by norm_num) k
+  rw [spacingExpS_scale q1 h1 k, spacingExpS_scale q2 h2 k]
+  exact spacingExp_mono (mul_pos h1 hp) (mul_le_mul_of_nonneg_right h12 hp.le)
+
+/-- `10^eT` is at least the unit in the last place at every rational point of the enclosure, and it is
+    the unit at its upper end -/
+theorem spacing_le_eT {t : Sci} {q : ℚ} (hq : 0 < q) (h2 : q ≤ t.m.hi) : spacingExpS q t.k ≤ eT t :=
+  le_trans (spacingExpS_mono t.k hq h2) (le_max_right _ _)
+
+theorem eT_eq_hi {t : Sci} (hlo : 0 < t.m.lo) (h : t.m.lo ≤ t.m.hi) : eT t = spacingExpS t.m.hi t.k :=
+  max_eq_right (spacingExpS_mono t.k hlo h)
+
+/-- an infinite result judged `.bad` (default tolerance): either the lower end of the enclosure is below
+    `10^(Emax+31)`, or the true value plus one ulp is still below the largest finite Decimal -/
+theorem withinUlps_inf_bad {n : Bool} {t : Sci} {T : ℝ} {m : String}
+    (hlo : 0 < t.m.lo) (hT : T ∈ₛ t) (h : withinUlps (.inf n) t 0 = .bad m) :
+    (t.m.lo : ℝ) * (10 : ℝ) ^ t.k < (10 : ℝ) ^ (Emax + 31) ∨
+    T + (10 : ℝ) ^ (eT t) < (Cmax : ℝ) * (10 : ℝ) ^ Emax := by
+  have hk : (0 : ℝ) < (10 : ℝ) ^ t.k := zpow_pos (by norm_num) _
+  unfold withinUlps at h
+  simp only [not_le.2 hlo, if_false, mul_zero, add_zero] at h
+  split at h
+  · exact absurd h (by simp)
+  · split at h
+    · rename_i hl
+      left
+      have := (ilog10_spec t.m.lo hlo).2
+      have h' : ((t.m.lo : ℚ) : ℝ) < (((10 : ℚ) ^ (ilog10 t.m.lo + 1) : ℚ) : ℝ) := by exact_mod_cast this
+      push_cast at h'
+      have h2 := mul_lt_mul_of_pos_right h' hk
+      rw [← zpow_add₀ (by norm_num)] at h2
+      have h3 : (10 : ℝ) ^ (ilog10 t.m.lo + 1 + t.k) ≤ (10 : ℝ) ^ (Emax + 31) :=
+        zpow_le_zpow_right₀ (by norm_num) (by omega)
+      linarith
+    · split at h
+      · exact absurd h (by simp)
+      · rename_i hb
+        right
+        rw [ge_iff_le, not_le] at hb
+        have hb' : ((t.m.hi + pow10 (eT t - t.k) : ℚ) : ℝ) <
+            (((Cmax : ℚ) * pow10 (Emax - t.k) : ℚ) : ℝ) := by exact_mod_cast hb
+        have := mul_lt_mul_of_pos_right hb' hk
+        rw [scaled_cast] at this
+        push_cast at this
+        have e1 := unit_cast (eT t) t.k
+        have h1 := sciMem_le_hi hT
+        nlinarith
 
 end EnclPf
